@@ -74,6 +74,8 @@ impl Attr for FieldAttr {
     fn assert_validity(&self, field: &Self::Item) -> Result<()> {
         if cfg!(feature = "serde-compat")
             && self.using_serde_with
+            // (a skipped field is not part of the binding, however serde would have written it)
+            && !self.skip
             && !(self.type_as.is_some() || self.type_override.is_some())
         {
             syn_err_spanned!(
